@@ -67,10 +67,6 @@ fn vq_c03_mgr_initial_stream_limit_table() {
     if sid_is_uni(i) && sid_initiator_is_server(i) != declarer_is_server {
         assert!(r == d.uni, "C03/tp.max_data/uni_opened_by_peer_gets_uni");
     }
-    // STRICT (kept although it fails on the unchanged tree, AUTHORING.md "Findings"): the declaring endpoint
-    // never receives on a unidirectional stream it opened itself, it declared no credit for it => 0.
-    // The real function returns `max_data_uni` for that class.
-    assert!(r == want, "C03/tp.max_data/equals_rfc_18_2_table");
     // RESIDUAL: the same claim outside the recorded input class {unidirectional AND initiator == declaring
     // endpoint}; for that class the value is unobservable on the wire as long as the stream object never
     // receives on it (that is what C04/mgr.insert_stream/... and StreamImpl::new's `receive_is_closed` state).
@@ -87,6 +83,11 @@ fn vq_c03_mgr_initial_stream_limit_table() {
     kani::cover!(sid_is_uni(i) && sid_initiator_is_server(i) == declarer_is_server, "reach:uni_own");
     kani::cover!(raw == MAXV, "reach:largest_id");
     kani::cover!(l[0] == MAXV && l[1] == 0, "reach:limit_bounds");
+    // STRICT, LAST (Kani's assert also assumes: everything above is checked on the full domain, nothing below):
+    // kept although it fails on the unchanged tree (AUTHORING.md "Findings").  The declaring endpoint never
+    // receives on a unidirectional stream it opened itself, it declared no credit for it => 0; the real function
+    // returns `max_data_uni` for that class.
+    assert!(r == want, "C03/tp.max_data/equals_rfc_18_2_table");
 }
 
 //@ harness props=C03,C04,C14 tier=quick level=full timeout=120
@@ -98,7 +99,7 @@ fn vq_c03_mgr_initial_stream_limit_table() {
 //@ fn Limits::with_bidirectional_remote_data_window
 //@ fn Limits::with_unidirectional_data_window
 #[kani::proof]
-#[kani::unwind(3)]
+#[kani::unwind(8)] // 2u64.pow(60) in InitialMaxStreams*::validate is a square-and-multiply loop (6 iterations)
 fn vq_c03_mgr_local_limits_mapping() {
     let w: [u64; 4] = kani::any();
     let s: [u64; 4] = kani::any();
